@@ -152,7 +152,7 @@ func scC03(r *Run) {
 
 func init() {
 	register(&PropDef{ID: "C01", Quick: 3000, Thorough: 300000, Profiles: []ProfileDef{{Name: "seq", Share: 1, Sc: scC01}}})
-	register(&PropDef{ID: "C02", Quick: 3300, Thorough: 330000, Profiles: []ProfileDef{
+	register(&PropDef{ID: "C02", Quick: 8800, Thorough: 440000, Profiles: []ProfileDef{
 		{Name: "seq", Share: 10, Sc: scC02},
 		{Name: "init-burst", Share: 1, Sc: scMuxBurst("init")},
 	}})
